@@ -273,7 +273,16 @@ def r_global(P, chk, prop):
         if "token_pool" in byname:
             chk.violation(rid, "config:token_pool", "token.c", "DISABLE_OBJECT_POOL still defines the token pool objects")
         tn = P.func("token_new", "token.c")
-        ok = any(c.get("callee") == "malloc" for c in tn.calls())
+        def mallocs(fn, depth=0):
+            if any(c.get("callee") == "malloc" for c in fn.calls()):
+                return True
+            if depth < 2:
+                for c in fn.calls():
+                    g = P.resolve(fn, c.get("callee") or "")
+                    if g is not None and g.unit is fn.unit and g is not fn and mallocs(g, depth + 1):
+                        return True
+            return False
+        ok = mallocs(tn)
         chk.obligation(rid, "token_new allocates with malloc when the pool is disabled", ok)
         if not ok:
             chk.violation(rid, "config:token_new:malloc", tn.where(), "token_new does not call malloc with the pool disabled")
